@@ -23,6 +23,10 @@ CHECKS.update({
  'C10': ('model_checking', "Master.tla with Crash enabled between any two storage writes of reschedule, load_model and init_schedule: no instance under two servers in ANY state, restart never trips the integrity check, placement = model after restart. On the code: an exception injected at the k-th storage write (sampled k in quick, every k in thorough), stored state examined at the cut, new Master started on it.", '6/C10', MASTER_NOTE, 'TLA+ spec model-checked with TLC (crash between any two writes) + fault enumeration of every storage write on the real Master + TLC trace validation'),
  'C11': ('model_checking', "Master.tla LoadModel action property; on the code the model right after load_model() is compared with the store as it was before the restart: every instance recorded under a healthy server is placed there with recorded identity and expiry, nothing unrecorded is placed.", '6/C11', MASTER_NOTE),
 })
+CHECKS.update({
+ 'C02': ('model_checking', "Two specifications: Buckets.tla (the incremental free-capacity aggregates of racks/cell under add/remove/state/put/remove, pruning soundness model-checked exhaustively) and Sched.tla with a probe history variable (quiescent cell, one new instance, leaf-scan oracle). On the code: the recorded bucket aggregates are checked against the leaves on every step, and probe histories (quiesce, submit, cycle) on the real Cell are judged by the leaf-scan clause.", '6/C02', SCHED_NOTE),
+ 'C06': ('model_checking', "The queue functions are part of Sched.tla (per-allocation priority order, exact rank/boost/cap arithmetic, every legal interleaving of equal-rank allocations); invariants over all legal queues. On the code the queue is captured at Cell._find_placements (with each instance's placed flag at that moment) for nested allocation trees incl. randomly generated ones, and judged by six clauses (permutation, rank order, priority order, priority-0 last, boost, cap).", '6/C06', SCHED_NOTE + ' Float utilisation order of equal-rank instances of different allocations is not judged.'),
+})
 NA = {}
 ALL = ['C%02d' % i for i in range(1, 21)]
 def main():
